@@ -289,7 +289,8 @@ class Renderer:
                 tn = d.atype
             else:
                 _, ans, an = d.atype
-                tn = an if ans == self.cur_ns else '%s.%s' % (ans, an)
+                tn = an if (ans == self.cur_ns and not getattr(d, 'qualify_own', False)) \
+                    else '%s.%s' % (ans, an)
             parts = [fmt_literal(a) for a in d.args]
             parts += ['%s=%s' % (k, fmt_literal(v)) for k, v in d.kwargs.items()]
             L.append(Line(level, 'annotation %s = %s(%s)' % (d.name, tn, ', '.join(parts))))
